@@ -11,8 +11,6 @@ HARNESS = "mmr"
 PROFILES = ["release", "checked"]
 RUN_TIMEOUT = {"quick": 600, "thorough": 3000}
 
-KEY_PANIC = "mmr-successor-verify-panic-inconsistent-old"
-KEY_ACCEPT = "mmr-successor-verify-accepts-inconsistent-old"
 
 TRUSTED = [
     "Coq 8.16.1 kernel and its bytecode VM (vm_compute for the concrete refutation witnesses and small-scope checks); no native_compute",
@@ -27,7 +25,7 @@ ASSUMPTIONS = [
     "leaf counts < 2^63 for proof generation (the documented domain of new_from_batch_append); verification is modelled for all u64 counts",
     "arithmetic overflow is modelled as a panic (checked build); a release build would wrap - only reachable for counts >= 2^63",
     "a peak list of 2^32 or more digests makes `len().try_into::<u32>().unwrap()` panic: the totality theorem carries length < 2^32",
-    "sp_verify_v0 is the code as it is, sp_verify_v1 the repaired code (fixes/C12-successor-verify-inconsistent-old.patch); the correspondence accepts v1 behaviour and reports v0 behaviour on an inconsistent old accumulator under the two finding keys",
+    "the model of verify is sp_verify_v1 (with the rejection of an old accumulator whose peak count differs from count_ones, /repo dfe5f25); sp_verify_v0 (without it) is kept only for the historical refutation lemmas; a return of the v0 behaviour (panic / acceptance) is a VIOLATION",
 ]
 RULE = ("all (old, appended) pairs with total <= 64 exhaustively; every single-digest alteration, rotation, removal and "
         "addition; every old/new peak alteration; old/new peak lists longer/shorter than popcount, leaf count 0 with peaks, "
@@ -140,6 +138,8 @@ def parse(s):
 
 
 def compare(case, impl, model):
+    """The model is the repaired verify (sp_verify_v1 = the code after /repo dfe5f25).  V0 (the verdict of the
+    historical, unrepaired code) is printed by the oracle for diagnosis only."""
     if model.startswith("ORACLE-ERROR") or "SPECDIFF" in model:
         return "oracle: " + model[:200]
     if impl == "PANIC" or model == "PANIC":
@@ -148,28 +148,13 @@ def compare(case, impl, model):
     if i.get("S") != m.get("S"):
         return "generated proof differs from the model's"
     if m.get("V1") != m.get("SP"):
-        return "model v1 (%s) disagrees with the specification (%s)" % (m.get("V1"), m.get("SP"))
+        return "model (%s) disagrees with the specification (%s)" % (m.get("V1"), m.get("SP"))
     if i.get("V") == m.get("V1"):
         return None
     if i.get("V") == m.get("V0"):
-        return "verify on an inconsistent old accumulator: implementation %s (as the unrepaired model), specification %s" % (
-            i.get("V"), m.get("SP"))
-    return "verdict %s matches neither model v0 (%s) nor v1 (%s)" % (i.get("V"), m.get("V0"), m.get("V1"))
-
-
-def finding_key(case, impl, model):
-    """Only the two confirmed defects: v0 behaviour where v0 and v1 differ, i.e. the old accumulator's peak
-    count differs from count_ones(leaf_count)."""
-    if impl == "PANIC" or model == "PANIC":
-        return None
-    i, m = parse(impl), parse(model)
-    if i.get("S") != m.get("S") or m.get("V1") != m.get("SP") or m.get("V0") == m.get("V1"):
-        return None
-    if i.get("V") == m.get("V0") == "P":
-        return KEY_PANIC
-    if i.get("V") == m.get("V0") == "T" and m.get("SP") == "F":
-        return KEY_ACCEPT
-    return None
+        return ("verify on an inconsistent old accumulator: implementation %s (the behaviour of the unrepaired code: "
+                "panic / acceptance), model and specification %s" % (i.get("V"), m.get("SP")))
+    return "verdict %s differs from the model's %s" % (i.get("V"), m.get("V1"))
 
 
 def nontrivial(case):
